@@ -846,6 +846,26 @@ func enumC08(n int, seed int64, thorough bool) []func() []wcaseT {
 			return out
 		})
 	}
+	// the end marker written by Close completes the last word of the bit stream buffer (256 KiB): stream lengths around that boundary
+	// with a sink that rejects everything; the failure has to come back as an error of Write or Close
+	gens = append(gens, func() []wcaseT {
+		var out []wcaseT
+		for i, size := 0, 262050; size <= 262120; i, size = i+1, size+1 {
+			if !thorough && (size < 262070 || size > 262100) {
+				continue
+			}
+			r := &writerRun{Mode: "c08", Seed: seed*41 + 977, Run: 900000 + i, Shape: "random", Size: size, RJobs: 1, After: "close", FailFrom: 1}
+			r.W = kz.Cfg{Transform: "NONE", Entropy: "NONE", Block: 65536, Jobs: 1, Ck: 0, Hint: []int64{0, -1}[i%2]}
+			r.Key = fmt.Sprintf("c08edge|%d|%d", size, r.W.Hint)
+			out = append(out, wcaseT{r, gen.Make("random", r.Seed, size)})
+			r2 := *r
+			r2.Run += 500
+			r2.W.Hint = []int64{-1, 0}[i%2]
+			r2.Key = fmt.Sprintf("c08edge|%d|%d", size, r2.W.Hint)
+			out = append(out, wcaseT{&r2, gen.Make("random", r.Seed, size)})
+		}
+		return out
+	})
 	return gens
 }
 
